@@ -21,7 +21,7 @@ def source(rng, maxlen, payload='i'):
         return {'op': 'dict', 'ks': KEYS[:n], 'src': list(range(1, n + 1)), 'pl': payload,
                 'iw': 'pickle'}
     if kind == 'pq':
-        return {'op': 'dict', 'ks': ['p', 'q'], 'src': [7, 8], 'pl': payload, 'iw': 'pickle'}
+        return {'op': 'dict', 'ks': ['pp', 'qq'], 'src': [7, 8], 'pl': payload, 'iw': 'pickle'}
     if kind == 'dup':
         return {'op': 'list', 'src': [1, 1, 2], 'pl': payload, 'iw': 'pickle'}
     if kind == 'wu':
@@ -50,7 +50,7 @@ def slice_form(rng, n):
         return {'fk': 'bm', 'mask': [rng.random() < 0.5 for _ in range(m)],
                 'as': rng.choice(['list', 'np'])}
     m = rng.randint(1, 3)
-    pool = KEYS[:max(n, 1)] + (['zz'] if rng.random() < 0.15 else []) + ['p', 'q'][:rng.randint(0, 2)]
+    pool = KEYS[:max(n, 1)] + (['zz'] if rng.random() < 0.15 else []) + ['pp', 'qq'][:rng.randint(0, 2)]
     return {'fk': 'kl', 'kl': [rng.choice(pool) for _ in range(m)],
             'as': rng.choice(['list', 'tuple'])}
 
